@@ -190,6 +190,48 @@ func (s *scenario) signCommit(rng *rand.Rand, h uint64, bid types.BlockID, vals 
 	return types.NewCommit(h, 1, bid, sigs)
 }
 
+// flushBlock: the transactions of block h of a snapshot-flush scenario (all from the rich sender, in nonce order).
+//
+//	blocks 1..bulkFills      one fill transaction each (bulkPerFill fresh slots with 32-byte values): together more than the
+//	                         snapshot aggregator's memory limit, so that these layers go to the snapshot's disk layer once more
+//	                         than 128 diff layers are stacked on top
+//	block 3, before the fill the slots the GENESIS state holds are cleared (the clearing SSTORE reads them through the disk layer)
+//	                         and the victim -- a genesis account with code and storage -- is destroyed
+//	the last 9 blocks        each re-reads a ninth of the cleared slots (SLOAD, +1, SSTORE) and probes the victim (balance, code
+//	                         hash, code size, call): whichever of them runs after the flush reads what the disk layer serves
+func (s *scenario) flushBlock(h uint64, view chainView, signer types.Signer) []genTx {
+	from, key := s.sndAddr[0], s.sndKeys[0]
+	nonce := view.nonce(from)
+	var out []genTx
+	add := func(to common.Address, gas uint64, data []byte, kind string) {
+		tx, err := types.SignTx(signer, types.NewTransaction(nonce, to, new(big.Int), gas, big.NewInt(1), data), key)
+		if err != nil {
+			panic(err)
+		}
+		out = append(out, genTx{tx: tx, kind: kind, pool: true})
+		nonce++
+	}
+	last := uint64(s.p.Blocks)
+	switch {
+	case h <= bulkFills:
+		if h == 3 {
+			add(s.bulk, 4000000, bulkData(bulkBase, bulkBase+bulkPreset, 1), "bulk-clear")
+			add(s.victim, 200000, nil, "victim-kill")
+		}
+		add(s.bulk, 192000000, bulkData(int(h)*10000, int(h)*10000+bulkPerFill, 0), "bulk-fill")
+	case h+9 > last:
+		k := int(h + 9 - last - 1) // 0..8
+		per := (bulkPreset + 8) / 9
+		lo, hi := bulkBase+k*per, bulkBase+(k+1)*per
+		if hi > bulkBase+bulkPreset {
+			hi = bulkBase + bulkPreset
+		}
+		add(s.bulk, 3000000, bulkData(lo, hi, 2), "bulk-reread")
+		add(s.probe, 400000, nil, "victim-probe")
+	}
+	return out
+}
+
 // doubleSign builds duplicate-vote evidence against a validator of height e: two prevotes of round 1 for different blocks.
 func (s *scenario) doubleSign(rng *rand.Rand, p *replica, e uint64) types.Evidence {
 	vals, err := p.cs.LoadValidators(e)
@@ -285,6 +327,9 @@ func (s *scenario) produce(res *mbt.Result) (*produced, error) {
 				txs = append(txs, seq...)
 			}
 		}
+		if s.p.Flush {
+			handMade, txs, followUp = true, s.flushBlock(h, view, signer), false
+		}
 		var kinds []string
 		source := "pool"
 		if !handMade {
@@ -311,7 +356,7 @@ func (s *scenario) produce(res *mbt.Result) (*produced, error) {
 				kinds = append(kinds, t.kind)
 			}
 			// another proposer's order: nonce order per sender is kept or broken at random
-			if rng.Intn(4) == 0 {
+			if rng.Intn(4) == 0 && !s.p.Flush {
 				rng.Shuffle(len(list), func(i, j int) { list[i], list[j] = list[j], list[i] })
 			}
 			hdr := block.Header()
@@ -319,7 +364,7 @@ func (s *scenario) produce(res *mbt.Result) (*produced, error) {
 				hdr.ProposerAddress = p.st.Validators.Validators[rng.Intn(len(p.st.Validators.Validators))].Address
 			}
 			var evs []types.Evidence
-			if h >= 2 && rng.Intn(3) == 0 && nEvidence < 2 && !(s.p.Long && h+8 < uint64(s.p.Blocks)) {
+			if h >= 2 && rng.Intn(3) == 0 && nEvidence < 2 && !s.p.Flush && !(s.p.Long && h+8 < uint64(s.p.Blocks)) {
 				nEvidence++
 				// the block carries evidence of a double sign at the previous height: commitBlock slashes and jails the validator
 				if ev := s.doubleSign(rng, p, h-1); ev != nil {
@@ -355,7 +400,9 @@ func (s *scenario) produce(res *mbt.Result) (*produced, error) {
 		}
 		out.lcis = append(out.lcis, p.rec.lci)
 		out.byzs = append(out.byzs, p.rec.byz)
-		p.pool.VerifReset()
+		// reset the pool to the new head on this goroutine (see net_test.go: a (nil, nil) reset REQUEST can be merged into a
+		// pending head-event request and crash TxPool.reset)
+		p.pool.VerifRunReorg(true, nil)
 		lastCommit = seen
 	}
 	return out, nil
@@ -405,6 +452,8 @@ func (s *scenario) receive(res *mbt.Result, f *scnFile, cfg cfgSpec, path string
 }
 
 // ---------------------------------------------------------------- re-execution on a warm chain
+
+var flushConfigs = map[string]bool{"default": true, "nosnap": true, "default-cold": true, "archive": true}
 
 var reexecVariants = []string{"plain", "prefetch", "copy", "nosnap", "plain", "prefetch-copy"}
 
@@ -525,6 +574,10 @@ func scenarioParams(seed int64, id int) scnParams {
 	default:
 		p.Galaxias = 1 + rng.Intn(3) // the hard-fork switch runs inside the scenario
 	}
+	if id%40 == 11 {
+		// snapshot-flush scenario: pre-Galaxias rules (block gas limit 200M: a fill transaction writes 9300 fresh slots)
+		p.Long, p.Flush, p.Blocks, p.Galaxias = true, true, 128+bulkFills+6+rng.Intn(3), -1
+	}
 	return p
 }
 
@@ -580,6 +633,9 @@ func TestRecord(t *testing.T) {
 			}
 			evs := pr.events
 			for ci, cfg := range cfgs {
+				if s.p.Flush && !flushConfigs[cfg.name] {
+					continue // the expensive scenario kind runs where it matters: long-running with snapshots, trie only, re-opened
+				}
 				evs = append(evs, s.receive(res, &pr.file, cfg, "receiver", fmt.Sprintf("c%d-%s", ci, cfg.name))...)
 			}
 			evs = append(evs, s.reexec(res, pr, reps)...)
